@@ -9,6 +9,7 @@ CONSTANT RoleMenu <- RM0
 CONSTANT DocMenu <- DMa1
 CONSTANT Lims <- L01
 CONSTANT MaxSteps = 6
+CONSTANT Thin = 1
 CONSTANT PageGap = TRUE
 SPECIFICATION Spec
 VIEW view
